@@ -364,3 +364,46 @@ PROPS["C01"] = dict(
               "transforms, tagged types) through the real MarshalAtlased/UnmarshalAtlased; compared with the model composition "
               "(marshal, encode, decode, unmarshal) and with the specified value norm(v); non-trivial = successful round trip of > 2 bytes",
 )
+
+PROPS["C09"] = dict(
+    level="proof",
+    lean_module="RefmtProofs.Props.C09",
+    theorems=["Refmt.C09.store_exact", "Refmt.C09.store_rejects_unfit", "Refmt.C09.store_accepts_fit", "Refmt.C09.float_not_into_int",
+              "Refmt.C09.float_into_float", "Refmt.C09.untyped_exact"],
+    streams=[dict(name="store", gen="store", rule="obj")],
+    title="unmarshalling never silently changes a number",
+    claim="Theorems (every integer token, every integer kind, unbounded values): the primitive-store model either fails or stores exactly "
+          "the token's mathematical value, which then lies in the kind's range; out-of-range values are rejected, in-range ones accepted in "
+          "either token spelling; floats never go into integer targets; float64 targets take floats bit-exactly; untyped slots receive the "
+          "exact integer. Tie: every integer in [-70000,70000] (stride 7 in quick) into the narrow kinds, all +-2^k, 2^k+-1 into every "
+          "numeric kind and untyped slots, both spellings, through the real Unmarshaller; stored Go value compared with the model and "
+          "checked exact by an independent oracle.",
+    rule_text="single numeric tokens x numeric target kinds: exhaustive small range for int8/uint8/int16/uint16 targets, all powers of two "
+              "+-1 up to 2^64-1 for every numeric kind, named kinds, pointers and untyped slots; non-trivial = the store succeeded or was "
+              "rejected for range (all cases are distinct (target, token) pairs)",
+)
+PROPS["C08"] = dict(
+    level="proof",
+    lean_module="RefmtProofs.Props.C08",
+    theorems=["Refmt.C08.keyLe_total", "Refmt.C08.keyLe_trans", "Refmt.C08.keyLe_antisymm", "Refmt.C08.keyLe_rfc7049_shorter_first",
+              "Refmt.C08.keyLe_default_is_strings", "Refmt.C08.sortKeys_sorted", "Refmt.C08.sortKeys_perm", "Refmt.C08.sortKeys_unique",
+              "Refmt.C08.marshal_map_order_independent", "Refmt.C08.struct_tokens_shape", "Refmt.C08.struct_keys_in_atlas_order_typed"],
+    streams=[dict(name="order", gen="order", rule="obj")],
+    title="deterministic output, keys ordered as configured",
+    claim="Theorems: both key comparators are total, transitive and antisymmetric on byte strings (RFC 7049: shorter first); the emitted "
+          "key sequence is sorted by the configured order and is a permutation of the keys; with distinct keys it is the unique sorted "
+          "permutation, so it cannot depend on iteration/insertion order or on which correct sort runs; two map values with the same "
+          "entries in different orders marshal to identical tokens; a struct's tokens are its entry's fields in atlas order. Tie: maps "
+          "built in every insertion order (<= 5 keys) and marshalled repeatedly under Go's randomised iteration, all three modes.",
+    rule_text="maps with key sets containing prefixes, equal lengths, multi-byte UTF-8 and struct keys via a transform, built in every "
+              "insertion order for <= 5 keys (random orders beyond), marshalled 3 times each under Go's randomised map iteration, under the "
+              "three key-sort modes (atlas default and per-type morphism) and for autogenerated structs; non-trivial = at least 2 keys",
+)
+
+def rule_obj_all(body, I, M):
+    r = rule_obj(body, I, M)
+    if r.get("bucket") != "def":
+        r["nontrivial"] = True
+    return r
+RULES["obj_all"] = rule_obj_all
+PROPS["C09"]["streams"] = [dict(name="store", gen="store", rule="obj_all")]
